@@ -403,3 +403,70 @@ func regSourceOf(v ssa.Value) string {
 }
 
 var _ = strings.Contains
+
+func init() { registerRule("R-ACC", false, ruleAcc) }
+
+// ruleAcc: the vararg accumulator is never recycled.
+func ruleAcc(c *Ctx) *RuleResult {
+	r := newResult("R-ACC", "the slice a Lua frame accumulates extra arguments in (LuaCont.acc) is handed to a register as the frame's '...' (ArrayValue(c.acc)) and shares its backing array from then on: the field is therefore only ever assigned nil or the result of append on itself — never a reslice of itself (c.acc[:0]), which would let the next open-ended receive overwrite the values '...' still denotes")
+	p := c.P
+	n := 0
+	for _, f := range p.ModFuncs() {
+		if relPkg(funcPkgPath(f)) != "runtime" || f.Blocks == nil {
+			continue
+		}
+		forEachInstr(f, func(ins ssa.Instruction) {
+			st, ok := ins.(*ssa.Store)
+			if !ok {
+				return
+			}
+			fa, ok := st.Addr.(*ssa.FieldAddr)
+			if !ok {
+				return
+			}
+			if _, tn, fn := fieldOfAddr(fa); tn != "LuaCont" || fn != "acc" {
+				return
+			}
+			n++
+			v := st.Val
+			switch x := v.(type) {
+			case *ssa.Const:
+				if x.Value == nil {
+					r.ok(fnKey(f) + " resets acc to nil")
+					return
+				}
+			case *ssa.Call:
+				if b, ok := x.Call.Value.(*ssa.Builtin); ok && b.Name() == "append" {
+					// what is appended is charged to the memory quota first (argument lists
+					// are one of the allocations the program sizes)
+					charged := false
+					forEachInstr(f, func(o ssa.Instruction) {
+						if cc, ok := o.(ssa.CallInstruction); ok && instrDominates(o, ins) {
+							if cal := cc.Common().StaticCallee(); cal != nil && isChargeCall(cal) && strings.HasPrefix(cal.Name(), "Require") && cal.Name() != "RequireCPU" {
+								charged = true
+							}
+						}
+					})
+					if charged {
+						r.ok(fnKey(f) + " extends acc with append, after a memory charge")
+					} else {
+						r.fail("acc-append-uncharged:"+fnKey(f), p.InstrPos(ins), fnKey(f)+" appends to LuaCont.acc without a memory charge before it: extra arguments forwarded into a vararg function are then free, and a program that keeps such frames alive holds memory the quota never saw")
+					}
+					return
+				}
+			case *ssa.Slice:
+				r.fail("acc-resliced:"+fnKey(f), p.InstrPos(ins), fnKey(f)+" assigns LuaCont.acc a reslice of an existing slice: the frame's '...' register still points at that backing array, so the next values accumulated overwrite it (a vararg function that expands a call after using ... sees wrong values)")
+				return
+			}
+			// a value built elsewhere (NewLuaCont's initial nil, a copy): accept fresh allocations only
+			if _, ok := v.(*ssa.MakeSlice); ok {
+				r.ok(fnKey(f) + " gives acc a fresh slice")
+				return
+			}
+			r.fail("acc-unknown-source:"+fnKey(f), p.InstrPos(ins), fnKey(f)+" assigns LuaCont.acc a value that is neither nil, a fresh slice nor append on itself: it may alias the array behind a '...' register")
+		})
+	}
+	r.count("stores_to_LuaCont_acc", n)
+	r.floor("stores_to_LuaCont_acc", 2)
+	return r
+}
